@@ -5504,7 +5504,7 @@ encaps_var_offset:
     |   T_NUM_STRING
             {
                 // TODO: add option to handle 64 bit integer
-                if _, err := strconv.Atoi(string($1.Value)); err == nil {
+                if _, err := strconv.Atoi(string($1.Value)); err == nil && intOffset($1.Value, false) {
                     $$ = &ast.ScalarLnumber{
                         Position: yylex.(*Parser).builder.NewTokenPosition($1),
                         NumberTkn: $1,
